@@ -849,8 +849,13 @@ class DFTTransformer(BilateralForwardTransformer):
             cc = ref[1].coeff(n, 0)
             result = self.termXq(expr, n, k, q, lower, upper)
             result.subs(q, q * lam**bb)
-            # No special cases remain
-            result.rm_cases()
+            # Special cases remain only if lam**bb lies on the unit
+            # circle at a DFT bin, e.g., (-1)**n with N even
+            k0 = sym.arg(lam**bb) * self.N / 2 / pi
+            if abs(lam**bb) == 1 and k0.is_integer and result.has_special:
+                result.shift_k(k0)
+            else:
+                result.rm_cases()
             result.multiply(const * lam**cc)
             return result
 
